@@ -177,6 +177,7 @@ def check_C09(ctx, tier):
     K.rule_K_OWN(ctx, ctx.repo)
     G.rule_G(ctx, ctx.repo, want=('G-VAL', 'G-PREC'))
     G.rule_SIG(ctx, ctx.repo)                      # positional values are filed under the names of the callable that is actually bound
+    G.rule_G_STALE(ctx, ctx.repo)
     for d, paths in _wrappers(ctx, tier):
         W.setup_abbrev(d)
         W.rule_W_KEY(ctx, d, paths)
@@ -215,6 +216,7 @@ def check_C17(ctx, tier):
 def check_C11(ctx, tier):
     G.rule_G_FORMS(ctx, ctx.repo)
     G.rule_G_ZERO(ctx, ctx.repo)
+    G.rule_G_STALE(ctx, ctx.repo)
     G.rule_G_FIELDS(ctx, ctx.repo)
     G.rule_SIG(ctx, ctx.repo)
     G.rule_G(ctx, ctx.repo, want=('G-VAL',))       # everything that is not ignored still reaches the key
@@ -237,6 +239,7 @@ def check_C11(ctx, tier):
 def check_C19(ctx, tier):
     G.rule_SIG(ctx, ctx.repo)
     G.rule_V(ctx, ctx.repo)
+    G.rule_G_STALE(ctx, ctx.repo)
     K.rule_K_OWN(ctx, ctx.repo)                    # signature() is free of cross-call state (a memoised argspec mutated in place changes later verdicts)
     ctx.assume("agreement of validate's individual binding checks with the interpreter (counting, partial bookkeeping) is value-level and not decided")
     return ('Necessary conditions for "validate/isvalid agree with Python\'s binding without calling the function": every rejection is a TypeError; '
